@@ -65,6 +65,8 @@ func c01(x *runCtx) {
 }
 
 type c01Env struct {
+	rec61 []byte   // the honest run's 61 and 63s, for replay
+	rec63 [][]byte
 	k      lab.Kind
 	enc    protocol.KeyEncoding
 	w      *lab.World
@@ -288,6 +290,19 @@ func c01Kind(x *runCtx, ctx context.Context, r *rand.Rand, k lab.Kind, enc proto
 			e.OVEntry.Payload.Val.PublicKey = *pk
 			return true
 		}, withheld: true},
+		// the genuine owner's answers of an earlier session of this very device, replayed by a peer that holds no key at all:
+		// the device's nonce and with it the HelloDevice hash are fresh in every session
+		{what: "whole-session-replayed-from-an-earlier-session", proofRaw: func(b []byte) []byte {
+			if env.rec61 == nil {
+				return b
+			}
+			return env.rec61
+		}, entryRaw: func(i int, b []byte) []byte {
+			if i < len(env.rec63) && env.rec63[i] != nil {
+				return env.rec63[i]
+			}
+			return b
+		}, withheld: true},
 		// (c) vouchers of other devices / manufacturers, consistently signed by the genuine owner key
 		{what: "voucher-of-other-device-same-owner", proof: spliceVoucher(env.bOV), entry: serve(env.bOV), withheld: true},
 		{what: "voucher-of-other-manufacturer", proof: spliceVoucher(cOV), entry: serve(cOV), withheld: true},
@@ -479,6 +494,9 @@ func c01Run(x *runCtx, ctx context.Context, env *c01Env, s c01Scenario) {
 	})
 	if !applicable {
 		return
+	}
+	if s.what == "honest" && res == "ok" {
+		env.rec61, env.rec63 = append([]byte{}, got61...), append([][]byte{}, got63...)
 	}
 	h63 := make([]string, len(got63))
 	for i, b := range got63 {
